@@ -258,8 +258,9 @@ func partCheck(c *core.Ctx, n, size int) bool {
 	if r.Chance(1, 4) {
 		nestAt = r.Intn(len(want) + 1)
 	}
+	nestAll := nestAt >= 0 && r.Bool() // ... or every one of the first six callbacks does
 	nest := func(k int) {
-		if k == nestAt && nestMsg == "" {
+		if (k == nestAt || nestAll && k < 6) && nestMsg == "" {
 			nestMsg = c13nested(r.Intn(40), r.Range(1, 9))
 			c.Count("nested_calls_in_callbacks", 1)
 		}
@@ -585,36 +586,71 @@ type bigElem [20]int64 // 160 bytes
 
 // bigElemCheck runs the three helpers over a large value type.
 func bigElemCheck(c *core.Ctx, n int) bool {
-	in := make([]bigElem, n)
-	for i := range in {
-		in[i] = bigElem{int64(i + 1), 19: int64(-i - 1)}
+	if !elemCheck(c, "big-elements", n, func(i int) bigElem { return bigElem{int64(i + 1), 19: int64(-i - 1)} },
+		func(e bigElem, i int) bool { return e[0] == int64(i+1) && e[19] == int64(-i-1) }) {
+		return false
 	}
-	ok := func(e bigElem, i int) bool { return e[0] == int64(i+1) && e[19] == int64(-i-1) }
+	// element sizes that are not powers of two (3, 10, 12, 24 bytes), strings, slices, interfaces
+	m := n % 130
+	switch n % 7 {
+	case 0:
+		return elemCheck(c, "[3]byte", m, func(i int) [3]byte { return [3]byte{byte(i), byte(i >> 8), 0xA5} },
+			func(e [3]byte, i int) bool { return e == [3]byte{byte(i), byte(i >> 8), 0xA5} })
+	case 1:
+		return elemCheck(c, "[5]uint16", m, func(i int) [5]uint16 { return [5]uint16{uint16(i), 1, 2, 3, uint16(-i)} },
+			func(e [5]uint16, i int) bool { return e == [5]uint16{uint16(i), 1, 2, 3, uint16(-i)} })
+	case 2:
+		type t12 struct{ a, b, c int32 }
+		return elemCheck(c, "struct{3 x int32}", m, func(i int) t12 { return t12{int32(i), 7, int32(-i)} },
+			func(e t12, i int) bool { return e == t12{int32(i), 7, int32(-i)} })
+	case 3:
+		return elemCheck(c, "[3]int64", m, func(i int) [3]int64 { return [3]int64{int64(i), 9, int64(-i)} },
+			func(e [3]int64, i int) bool { return e == [3]int64{int64(i), 9, int64(-i)} })
+	case 4:
+		return elemCheck(c, "[]int", m, func(i int) []int { return []int{i, -i} },
+			func(e []int, i int) bool { return len(e) == 2 && e[0] == i && e[1] == -i })
+	case 5:
+		return elemCheck(c, "string", m, func(i int) string { return fmt.Sprint("s", i) },
+			func(e string, i int) bool { return e == fmt.Sprint("s", i) })
+	}
+	return elemCheck(c, "any", m, func(i int) any {
+		if i%3 == 0 {
+			return nil
+		}
+		return i
+	}, func(e any, i int) bool { return i%3 == 0 && e == nil || i%3 != 0 && e == i })
+}
+
+func elemCheck[E any](c *core.Ctx, tname string, n int, mk func(i int) E, ok func(e E, i int) bool) bool {
+	in := make([]E, n)
+	for i := range in {
+		in[i] = mk(i)
+	}
 	ps := slices.Pairs(in)
 	wantPairs := n - 1
 	if wantPairs < 0 {
 		wantPairs = 0
 	}
 	if len(ps) != wantPairs {
-		c.Violate("Pairs:pairs[big-elements]", fmt.Sprintf("Pairs over %d elements of 160 bytes returned %d pairs", n, len(ps)), nil)
+		c.Violate("Pairs:pairs["+tname+"]", fmt.Sprintf("Pairs over %d elements of type "+tname+" returned %d pairs", n, len(ps)), nil)
 		return false
 	}
 	for i, p := range ps {
 		if !ok(p[0], i) || !ok(p[1], i+1) {
-			c.Violate("Pairs:pairs[big-elements]", fmt.Sprintf("Pairs over %d elements of 160 bytes: pair %d is (%d,%d)", n, i, p[0][0], p[1][0]), nil)
+			c.Violate("Pairs:pairs["+tname+"]", fmt.Sprintf("Pairs over %d elements of type "+tname+": pair %d is wrong", n, i), nil)
 			return false
 		}
 	}
 	calls := 0
 	bad := -1
-	slices.PairsFunc(in, func(a, b bigElem) {
+	slices.PairsFunc(in, func(a, b E) {
 		if !ok(a, calls) || !ok(b, calls+1) {
 			bad = calls
 		}
 		calls++
 	})
 	if calls != wantPairs || bad >= 0 {
-		c.Violate("PairsFunc:sequence[big-elements]", fmt.Sprintf("PairsFunc over %d elements of 160 bytes: %d calls, first bad %d", n, calls, bad), nil)
+		c.Violate("PairsFunc:sequence["+tname+"]", fmt.Sprintf("PairsFunc over %d elements of type "+tname+": %d calls, first bad %d", n, calls, bad), nil)
 		return false
 	}
 	for _, size := range []int{1, 2, 3, 7} {
@@ -622,7 +658,7 @@ func bigElemCheck(c *core.Ctx, n int) bool {
 		for _, ch := range slices.Chunk(in, size) {
 			for _, e := range ch {
 				if !ok(e, idx) {
-					c.Violate("Chunk:piece[big-elements]", fmt.Sprintf("Chunk(size %d) over %d big elements: element %d wrong", size, n, idx), nil)
+					c.Violate("Chunk:piece["+tname+"]", fmt.Sprintf("Chunk(size %d) over %d elements of type "+tname+": element %d wrong", size, n, idx), nil)
 					return false
 				}
 				idx++
@@ -630,7 +666,7 @@ func bigElemCheck(c *core.Ctx, n int) bool {
 			total += len(ch)
 		}
 		if total != n {
-			c.Violate("Chunk:concatenation[big-elements]", fmt.Sprintf("Chunk(size %d) over %d big elements covers %d", size, n, total), nil)
+			c.Violate("Chunk:concatenation["+tname+"]", fmt.Sprintf("Chunk(size %d) over %d elements of type "+tname+" covers %d", size, n, total), nil)
 			return false
 		}
 		ws := slices.Windowed(in, size)
@@ -639,12 +675,16 @@ func bigElemCheck(c *core.Ctx, n int) bool {
 			ww = 0
 		}
 		if len(ws) != ww {
-			c.Violate("Windowed:windows[big-elements]", fmt.Sprintf("Windowed(size %d) over %d big elements returned %d windows", size, n, len(ws)), nil)
+			c.Violate("Windowed:windows["+tname+"]", fmt.Sprintf("Windowed(size %d) over %d elements of type "+tname+" returned %d windows", size, n, len(ws)), nil)
 			return false
 		}
 		for i, w := range ws {
-			if len(w) != size || !ok(w[0], i) || !ok(w[size-1], i+size-1) {
-				c.Violate("Windowed:windows[big-elements]", fmt.Sprintf("Windowed(size %d) over %d big elements: window %d wrong", size, n, i), nil)
+			good := len(w) == size
+			for j := 0; good && j < size; j++ {
+				good = ok(w[j], i+j)
+			}
+			if !good {
+				c.Violate("Windowed:windows["+tname+"]", fmt.Sprintf("Windowed(size %d) over %d elements of type "+tname+": window %d wrong", size, n, i), nil)
 				return false
 			}
 		}
